@@ -159,7 +159,7 @@ def bytes_jobs(tier_):
             J.seed_job(corpus.cfg(P, 60, 300, muts=corpus.MUTS, rate=0.5, unsafe=True, ext=True), rec=False, deep=0)
         # histories: the judged pickle is the 2nd .. 5th produced by one generator
         for k in range(150 if q else 1500):
-            J.seed_job(corpus.cfg(P), rec=False, deep=0, warm=1 + k % 4)
+            J.seed_job(corpus.cfg(P), rec=False, deep=0, warm=1 + k % 4, take_output=(k % 3 == 0))
         for k in range(30 if q else 300):
             J.bytes_job(corpus.cfg(P), blen=3000, rec=False, deep=0, warm=1 + k % 3)
             J.seed_job(corpus.cfg(P, 60, 300, muts=corpus.MUTS, rate=0.5), rec=False, deep=0, warm=1 + k % 3)
@@ -170,6 +170,10 @@ def bytes_jobs(tier_):
     deep = [(0, 25000), (1, 25000), (4, 45000)] if q else [(0, 25000), (1, 30000), (2, 45000), (3, 45000), (4, 60000), (5, 80000), (0, 60000)]
     for P, n in deep:
         J.seed_job(corpus.cfg(P, n, n + 1), rec=False, deep=1)
+    # framed for sure (the frame coin is the first input bit) and well beyond 64 KiB of payload
+    for P in (4, 5):
+        data = [1] + [J.rng.randrange(256) for _ in range(200000)]
+        J.bytes_job(corpus.cfg(P, 12000, 12001), data=data, rec=False, deep=1)
     return J.jobs
 
 def bytes_stage(tier_, key):
